@@ -498,3 +498,202 @@ Section Generate.
     | r => r
     end.
 End Generate.
+
+(** ** The generator of the current tree (fix "two members of a selection set the same struct field")
+
+    The definitions above ([step] .. [generate]) are gql-client-gen up to that repair: one [fields]
+    map keyed by response key / type condition / fragment name, the Go field name a function of
+    the key alone ([field_name]).  They are kept because the proofs are carried out on them
+    (ClientGenAgree.v shows that the two generators return the same program whenever no two members
+    of a selection set derive the same field name) and because they are the "before" of the
+    refutation witnesses.  Below: the code that exists now.
+    - response keys, inline fragments and spreads are three maps ([fields], [inlineFields],
+      [spreadFields]); here: one association list whose keys carry the map they belong to as a
+      first byte ([tk 0 / 1 / 2], a deviation of form);
+    - [assignFieldNames]: in the order response keys, inline fragments, spreads, each sorted, a
+      member gets [fieldName] of its key, with "_" appended while that name is taken ([assign]);
+    - fragment members always carry the single tag json:"-". *)
+Definition tk (kind : N) (k : name) : name := kind :: k.
+Definition untk (k : name) : name := tl k.
+Definition kind_of (k : name) : N := hd 0 k.
+
+(** [for { if _, ok := taken[name]; !ok { break }; name += "_" }] *)
+Fixpoint fresh (fuel : nat) (taken : list name) (n : name) : name :=
+  match fuel with
+  | O => n
+  | Datatypes.S f => if mem n taken then fresh f taken (n ++ [95]) else n
+  end.
+
+Fixpoint assign (keys : list name) (taken : list name) (acc : list (name * name)) : list (name * name) * list name :=
+  match keys with
+  | [] => (acc, taken)
+  | k :: r =>
+      let n := fresh (Datatypes.S (List.length taken)) taken (field_name (untk k)) in
+      assign r (n :: taken) (acc ++ [(k, n)])
+  end.
+
+Fixpoint insert_name (k : name) (l : list name) : list name :=
+  match l with
+  | [] => [k]
+  | x :: r => if bytes_leb k x then k :: x :: r else x :: insert_name k r
+  end.
+Definition sort_names (l : list name) : list name := fold_right insert_name [] l.
+
+Definition class_keys (c : N) (keys : list name) : list name := sort_names (filter (fun k => kind_of k =? c) keys).
+
+Definition assign_names (fields : list (name * (gotype * bool))) : list (name * name) :=
+  let keys := map fst fields in
+  fst (assign (class_keys 0 keys ++ class_keys 1 keys ++ class_keys 2 keys) [] []).
+
+Definition gname (names : list (name * name)) (k : name) : name :=
+  match assoc k names with Some n => n | None => field_name (untk k) end.
+
+Definition mk_field_s (names : list (name * name)) (e : name * (gotype * bool)) : gofield :=
+  let '(k, (t, dash)) := e in
+  let n := gname names k in
+  (n, (if dash then TagDash else if negb (equal_fold n (untk k)) then TagKey (untk k) else TagNone), t).
+
+Section GenS.
+  Variable S : schema.
+  Variable fragTypes : list (name * name).
+
+  Definition step_s (rec : rec_t) (tName : name) (d : typedef) (hasTn : bool) (all : list selection)
+             (sel : selection) (a : acc) : outcome acc :=
+    let '(fields, conds, done, fdone, st) := a in
+    match sel with
+    | SSpread f _ _ =>
+        if negb hasTn && negb (is_object d) then Err
+        else
+          let tc := match assoc f fragTypes with Some c => c | None => [] end in
+          Ok (aset (tk 2 f) (GPtr (GFragRef f), true) fields, aappend tc (tk 2 f) conds, done, fdone, st)
+    | SInline c sub =>
+        if negb hasTn && negb (is_object d) then Err
+        else if match c with
+                | None => false
+                | Some c' => negb (named_exists S c')
+                end then Panic
+        else
+          let cond := inline_cond tName c in
+          if mem cond done then Ok a
+          else
+            match gen_type rec (TNamed cond) (merged_inline tName cond all) st with
+            | Ok (g, st') => Ok (aset (tk 1 cond) (g, true) fields, aappend cond (tk 1 cond) conds, cond :: done, fdone, st')
+            | Err => Err | Panic => Panic | OutOfFuel => OutOfFuel
+            end
+    | SField al f sub =>
+        let k := sel_key al f in
+        if mem k fdone then Ok a
+        else
+        if is_typename f then Ok (aset (tk 0 k) (GString, false) fields, conds, done, k :: fdone, st)
+        else
+          match d with
+          | DObj _ _ fs | DIface _ fs =>
+              match assoc f fs with
+              | None => Panic
+              | Some ft =>
+                  match gen_type rec ft (merged_field k all) st with
+                  | Ok (g, st') => Ok (aset (tk 0 k) (g, false) fields, conds, done, k :: fdone, st')
+                  | Err => Err | Panic => Panic | OutOfFuel => OutOfFuel
+                  end
+              end
+          | _ => Ok (fields, conds, done, k :: fdone, st)
+          end
+    end.
+
+  Fixpoint loop_s (rec : rec_t) (tName : name) (d : typedef) (hasTn : bool) (all rest : list selection)
+           (a : acc) : outcome acc :=
+    match rest with
+    | [] => Ok a
+    | sel :: rest' =>
+        match step_s rec tName d hasTn all sel a with
+        | Ok a' => loop_s rec tName d hasTn all rest' a'
+        | Err => Err | Panic => Panic | OutOfFuel => OutOfFuel
+        end
+    end.
+
+  Definition mk_steps_s (names : list (name * name)) (tName : name) (d : typedef) (tnField : name)
+             (conds : list (name * list name)) : list ustep :=
+    flat_map (fun e : name * list name =>
+                let (tc, ms) := e in
+                if is_known no_quirks S tName d tc then map (fun m => UAlways (gname names m)) ms
+                else map (fun m => USwitch tnField (ok_types no_quirks S tc) (gname names m)) ms) conds.
+
+  Definition gen_composite_s (rec : rec_t) (n : name) (d : typedef) (sels : list selection) (st : gstate)
+    : outcome (gotype * bool * gstate) :=
+    let ft := first_typename sels in
+    let hasTn := match ft with Some _ => true | None => false end in
+    let tnKey := match ft with Some k => k | None => typename_name end in
+    match loop_s rec n d hasTn sels sels ([], [], [], [], st) with
+    | Ok (fields, conds, _, _, st1) =>
+        let names := assign_names fields in
+        let fs := sort_fields (map (mk_field_s names) fields) in
+        let tnField := match assoc (tk 0 tnKey) names with Some x => x | None => field_name tnKey end in
+        match conds with
+        | [] => Ok (GStruct fs, true, st1)
+        | _ :: _ =>
+            Ok (GSel n (g_count st1) fs (mk_steps_s names n d tnField conds), true,
+                {| g_enums := g_enums st1; g_count := g_count st1 + 1; g_json := true |})
+        end
+    | Err => Err | Panic => Panic | OutOfFuel => OutOfFuel
+    end.
+
+  Definition gen_named_body_s (rec : rec_t) : rec_t := fun n sels st =>
+    match builtin_of n with
+    | Some b => Ok (go_of_builtin b, true, st)
+    | None =>
+        match lookup_type S n with
+        | None => Ok (GIface, false, st)
+        | Some (DScalar _) => Ok (GScalar n, true, st)
+        | Some (DEnum _ vs) => Ok (GEnum n, true, emit_enum n vs st)
+        | Some d => gen_composite_s rec n d sels st
+        end
+    end.
+
+  Fixpoint gen_named_s (fuel : nat) : rec_t :=
+    match fuel with
+    | O => fun _ _ _ => OutOfFuel
+    | Datatypes.S fuel' => gen_named_body_s (gen_named_s fuel')
+    end.
+
+  Fixpoint process_defs_s (fuel : nat)
+           (defs : list (option name * list selection * option name))
+           (st : gstate) (out : list typedefn) (errored : bool) : outcome (gstate * list typedefn * bool) :=
+    match defs with
+    | [] => Ok (st, out, errored)
+    | (root, sels, dname) :: rest =>
+        match dname with
+        | None => process_defs_s fuel rest st out errored
+        | Some dn =>
+            match root with
+            | None => Panic
+            | Some r =>
+                match gen_named_s fuel r sels st with
+                | Ok (core, _, st') => process_defs_s fuel rest st' (out ++ [type_def dn core]) errored
+                | Err => process_defs_s fuel rest st out true
+                | Panic => Panic
+                | OutOfFuel => OutOfFuel
+                end
+            end
+        end
+    end.
+End GenS.
+
+Definition generate_raw_s (S : schema) (valid : bool) (d : document) : gen_result :=
+  if negb valid then GRejected
+  else
+    let fragTypes := map (fun f => (fr_name f, fr_cond f)) (d_frags d) in
+    match process_defs_s S fragTypes (Datatypes.S (doc_size d)) (defs_of S d)
+                         {| g_enums := []; g_count := 0; g_json := false |} [] false with
+    | Ok (st, out, errored) =>
+        if errored then GError
+        else GOk {| p_enums := g_enums st; p_defs := out; p_json := g_json st |}
+    | Err => GError
+    | Panic => GPanic
+    | OutOfFuel => GOutOfFuel
+    end.
+
+Definition generate_s (S : schema) (valid : bool) (d : document) : gen_result :=
+  match generate_raw_s S valid d with
+  | GOk p => if program_syntax_ok p then GOk p else GError
+  | r => r
+  end.
